@@ -2,15 +2,34 @@
 
 
 def c17_part(chk, tier, rng):
-    pass
+    """MANIFEST streams of real histories decoded by the Lean log reader + edit decoder (journal abstraction); the layout the
+    model predicts must equal what the implementation reports after every edit and every reopen (MANIFEST replay);
+    CURRENT switches: every crash image around MANIFEST roll-overs must open"""
+    import wl_run, crash_gen
+    n, nops = (8, 40) if tier == 'quick' else (200, 100)
+    chk.rules.append('whole-database histories with the I/O journal on: every MANIFEST record is decoded by the Lean decoders, each applied edit is replayed on the model and the layout '
+                     'compared with the implementation after every edit and every reopen; crash images at every journal prefix of reopen-heavy histories must open (CURRENT atomic)')
+    wl_run.run_histories(chk, n, nops, {'conforms', 'layout', 'recover', 'step'}, 'manifest-replay', journal=True)
+    fam = lambda r, db, img, nops_: crash_gen.history(r, db, img, nops_, '0134', False, 60 if tier == 'quick' else 300)
+    wl_run.run_histories(chk, 4 if tier == 'quick' else 60, 25, {'crashopen', 'conforms'}, 'current-switch-crashes', family=fam)
 
 
 def c04_part(chk, tier, rng):
-    pass
+    """crash atomicity: the recovered contents must equal the effect of a set of WHOLE batches (per-log prefixes)"""
+    import wl_run, crash_gen
+    chk.rules.append('crash images (kill and power-loss variants) of histories with multi-operation batches spanning several 32 KiB log blocks: the recovered contents must be those of a '
+                     'set of whole batches (the crash oracle builds its reference from whole batches only)')
+    fam = lambda r, db, img, nops_: crash_gen.history(r, db, img, nops_, '034', False, 50 if tier == 'quick' else 300)
+    wl_run.run_histories(chk, 6 if tier == 'quick' else 80, 30, {'crashview', 'crashinvented', 'crashopen'}, 'batch-crash-atomicity', family=fam)
 
 
 def c20_part(chk, tier, rng):
-    pass
+    import wl_run
+    n, nops = (12, 30) if tier == 'quick' else (300, 80)
+    chk.rules.append('lifecycle histories: open/close, second open in the same process, lock probes from another process, backups between arbitrary operations and re-checked after '
+                     'later source writes, copy, wrong-comparator open (must be refused without touching database files: journal checked), destroy with foreign files present; '
+                     'non-trivial = history with >= 1 flush and >= 1 compaction')
+    wl_run.run_histories(chk, n, nops, {'lifecycle', 'get', 'recover', 'files'}, 'lifecycle-histories', family='lifecycle')
 
 
 def c18_part(chk, tier, rng):
